@@ -47,6 +47,19 @@ VcChecks(e) ==
 
 FuzzChecks(e) == Check(l, "NeverPanics", D!NeverPanics(e))
 
+\* frames through the read loops of the real transports ("crash": the process died with this case in flight)
+FrChecks(e) ==
+  /\ Check(l, "NoPanicFr", D!NoPanicFr(e.c, e.o))
+  /\ Check(l, "drift", e.o.out \in D!ExpectedFr(e.c))
+
+ArChecks(e) ==
+  /\ Check(l, "ArDecodes", D!ArDecodes(e.c, e.o))
+  /\ Check(l, "ArSameLen", D!ArSameLen(e.c, e.o))
+  /\ Check(l, "ArSameElems", D!ArSameElems(e.c, e.o))
+  /\ Check(l, "ArOthersKept", D!ArOthersKept(e.c, e.o))
+  /\ Check(l, "ArNilKept", D!ArNilKept(e.c, e.o))
+  /\ Check(l, "drift", e.o = D!ExpectedAr(e.c))
+
 MNext == /\ l <= NLines /\ l' = l + 1
          /\ LET e == TraceLog[l] IN
               CASE e.k = "msg"  -> MsgChecks(e)
@@ -55,6 +68,8 @@ MNext == /\ l <= NLines /\ l' = l + 1
                 [] e.k = "req"  -> ReqChecks(e)
                 [] e.k = "vc"   -> VcChecks(e)
                 [] e.k = "fuzz" -> FuzzChecks(e)
+                [] e.k = "fr"   -> FrChecks(e)
+                [] e.k = "ar"   -> ArChecks(e)
 MSpec == MInit /\ [][MNext]_l
 MMark == MarkAt(l)
 MAccepted == Accepted
